@@ -42,8 +42,16 @@ Theorem C03_rounding_perturbs_by_half_a_thousandth : forall x m,
   (Qabs (x - round_dec 3 x) <= 1 # 2000)%Q /\ (Qabs (x - round_dec 3 x) <= Qabs (x - (m # 1000)))%Q.
 Proof. intros x m. exact (conj (round_dec_within_half 3 x) (round_dec_nearest 3 x m)). Qed.
 
+(* a reported tension that depends linearly on the right-hand side (row `row` of the pseudo-inverse of the system the back-end receives)
+   moves by at most (sum of |row|) * 0.0005 when every component of the right-hand side is rounded to three decimals: the tolerance
+   harness/props/c03.py derives is |pinv|_inf * 5e-4 *)
+Theorem C03_rounded_rhs_moves_a_linear_solution_by_at_most : forall (row b : list Q),
+  (Qabs (dotQ row (map (round_dec 3) b) - dotQ row b) <= abs_row_sum row * (1 # 2000))%Q.
+Proof. exact (rounded_rhs_perturbation 3). Qed.
+
 Print Assumptions C03_resultant_velocity_solves.
 Print Assumptions C03_unique_minimiser.
 Print Assumptions C03_unit_mobility_velocity_forward.
 Print Assumptions C03_unit_mobility_velocity_backward_last.
 Print Assumptions C03_rounding_perturbs_by_half_a_thousandth.
+Print Assumptions C03_rounded_rhs_moves_a_linear_solution_by_at_most.
